@@ -81,7 +81,7 @@ theorem abs_raw_none (k : RawK) {m : Nat} (hm : 2 ≤ m) : abs containsURL (.raw
 /-- after `</` in script / style content the reference demands exactly the element's end tag: if
 the text does not continue with the name and `>`, the prefix is outside `D` or ends inside the tag
 (where `abs` makes no claim) -/
-theorem endtag_forced {text : Bytes} {n : Nat} (H : Hole text n) (k : RawK) {pos : Nat}
+theorem endtag_forced {text : Bytes} {lo n : Nat} (H : Hole text lo n) (k : RawK) {pos : Nat}
     (hpos : pos + 2 ≤ n) (hr : rs text (pos + 2) = .raw k 2) :
     ∃ mid rest, text.drop (pos + 2) = mid ++ 0x3e :: rest ∧ mid.map lower = k.name := by
   have hlen := H.lt_length
@@ -220,7 +220,7 @@ theorem drop_two {text : Bytes} {pos : Nat} {a b : UInt8} (h0 : text[pos]? = som
 
 /-- the lexer's test succeeds: the whole end tag lies before the hole and the reference has
 matched the name when the lexer lands on the byte after it -/
-theorem endtag_jump {text : Bytes} {n : Nat} (H : Hole text n) (k : RawK) {pos : Nat} (hlt : pos < n)
+theorem endtag_jump {text : Bytes} {lo n : Nat} (H : Hole text lo n) (k : RawK) {pos : Nat} (hlt : pos < n)
     (hE : EndTagAt k.name (text.drop pos)) (hr1 : rs text (pos + 1) = .raw k 1) :
     pos + k.name.length + 2 < n ∧ rs text (pos + k.name.length + 2) = .raw k (k.name.length + 2) := by
   obtain ⟨mid, c, rest, e, hmid, hc⟩ := hE
@@ -267,7 +267,7 @@ theorem endtag_jump {text : Bytes} {n : Nat} (H : Hole text n) (k : RawK) {pos :
   congr 1; omega
 
 /-- the lexer's test fails but `</` follows: impossible under the hypotheses of the theorem -/
-theorem endtag_nojump {text : Bytes} {n : Nat} (H : Hole text n) (k : RawK) {pos : Nat}
+theorem endtag_nojump {text : Bytes} {lo n : Nat} (H : Hole text lo n) (k : RawK) {pos : Nat}
     (hlt : pos + 1 < n) (hc0 : text[pos]? = some 0x3c) (hc1 : text[pos + 1]? = some 0x2f)
     (hr1 : rs text (pos + 1) = .raw k 1) (hE : ¬ EndTagAt k.name (text.drop pos)) : False := by
   have hr2 : rs text (pos + 2) = .raw k 2 := by
